@@ -199,6 +199,25 @@ def project_typed_state(state):
     return {"st": project_state_plain(plain), "types": types}
 
 
+def apply_edit(domain, state, how, name, args):
+    """one given in-place edit of a State (fact added / removed); returns the event fields"""
+    ev = {"how": how, "fact": [name, list(args)], "f": "", "a": [], "v": [0, 1]}
+    try:
+        if how == "remove":
+            for key in list(state.state_predicates):
+                state.state_predicates[key] = {g for g in state.state_predicates[key]
+                                               if not (g.name == name and list(g.grounded_objects) == list(args))}
+        else:
+            lifted = domain.predicates[name]
+            gp = GroundedPredicate(name=name, signature=dict(lifted.signature),
+                                   object_mapping=dict(zip(lifted.signature.keys(), args)))
+            state.state_predicates.setdefault(gp.lifted_untyped_representation, set()).add(gp)
+        ev["out"] = {"st": project_state(state)}
+    except Exception as e:  # noqa: BLE001
+        ev["out"] = {"exc": exc_name(e)}
+    return ev
+
+
 def edit_state(rng, domain, state, atoms):
     """change `state` in place through its public containers; returns the event fields
     {"how": "add"|"remove"|"set", "fact": [p, args] | "f","a","v", "out": {"st": projection after}}"""
